@@ -214,6 +214,9 @@ func (runInfo *runInfoStruct) callExpr() {
 	if runInfo.err != nil {
 		return
 	}
+	if runInfo.interruptedBeforeCall() {
+		return
+	}
 
 	if !runInfo.options.Debug {
 		// captures panic
@@ -254,6 +257,19 @@ func (runInfo *runInfoStruct) callExpr() {
 
 	// processCallReturnValues to get/convert return values to normal rv form
 	runInfo.rv, runInfo.err = processCallReturnValues(rvs, isRunVMFunction, true)
+}
+
+// interruptedBeforeCall looks at the context once the arguments of a call are evaluated: evaluating them may have
+// taken long (a nested call of a slow Go function), and a cancelled run does not enter another function.
+func (runInfo *runInfoStruct) interruptedBeforeCall() bool {
+	select {
+	case <-runInfo.ctx.Done():
+		runInfo.err = ErrInterrupt
+		runInfo.rv = nilValue
+		return true
+	default:
+		return false
+	}
 }
 
 // callVMFunctionDirect calls a VM function that was created with a concrete
@@ -308,6 +324,10 @@ func (runInfo *runInfoStruct) callVMFunctionDirect(f reflect.Value, callExpr *as
 			return true
 		}
 		args = append(args, detachValue(runInfo.rv))
+	}
+
+	if runInfo.interruptedBeforeCall() {
+		return true
 	}
 
 	if !runInfo.options.Debug {
